@@ -23,8 +23,8 @@ MANIFEST = {
     'technique': 'deductive: VCs from the real AST of _calculate_transition_events (loop invariant), ffill, bfill, states_prev/next; z3; '
                  'finite-scope counter-models replayed natively; exhaustive short histories + random long histories as bounded stand-in',
 }
-UNITS = ['unit_events', 'unit_ffill', 'unit_bfill', 'unit_prev_next']
-BOUNDED = ['bounded_histories', 'bounded_purity']
+UNITS = ['unit_events', 'unit_ffill', 'unit_bfill', 'unit_prev_next', 'unit_plumbing', 'unit_dep_from_trajectory']
+BOUNDED = ['bounded_histories', 'bounded_purity', 'bounded_plumbing']
 META = {
     'clauses': {'C03.idx.*': 'P', 'C03.rows (order, soundness, content, completeness for outer changes)': 'P', 'C03.vstack': 'P',
                 'C03.replay': 'P as a lemma over the rows spec for atoms with an outer change; B on the real table',
@@ -364,6 +364,26 @@ def replay_events(inputs):
     except Exception as e:
         return {'reproduced': True, 'detail': f'_calculate_transition_events raised {type(e).__name__}: {e} for states={states.T.tolist()} inner={inner.T.tolist()} (per atom)'}
     bad = check_events_table(states, inner, ev, known_region=inputs.get('known_region', True))
+    if not bad and states.shape[0] * states.shape[1] <= 200 and states.max() >= 0 and (inner == states).all():
+        # the same history through the public route: a trajectory in which every atom sits at the centre of the site it occupies (far from all
+        # sites while at none) analysed with Transitions.from_trajectory must give these states and the same event table
+        from verif.native.synth import make_transitions
+        from gemdat.transitions import Transitions
+        n_sites = int(states.max()) + 1
+        # pymatgen rejects occupancies above one only in occupancy(); the construction itself is unrestricted
+        ref = make_transitions(states, n_sites=max(n_sites, 2))
+        try:
+            pub = Transitions.from_trajectory(trajectory=ref.trajectory, sites=ref.sites, floating_specie='Li', site_radius=1.0)
+            if not np.array_equal(np.asarray(pub.states), states):
+                bad.append('Transitions.from_trajectory does not recover the states of a trajectory that sits on the site centres')
+            else:
+                cols = ['atom index', 'start site', 'destination site', 'start inner site', 'destination inner site', 'time']
+                a_ = sorted(map(tuple, np.asarray(pub.events[cols]).astype(int).tolist())) if len(pub.events) else []
+                b_ = sorted(map(tuple, np.asarray(ev[cols]).astype(int).tolist())) if len(ev) else []
+                if a_ != b_:
+                    bad.append(f'Transitions.from_trajectory reports {len(a_)} events for this history, the event builder {len(b_)}')
+        except Exception as e:
+            bad.append(f'Transitions.from_trajectory raised {type(e).__name__}: {e}')
     return {'reproduced': bool(bad), 'detail': f'states(per atom)={states.T.tolist()} inner={inner.T.tolist()}: ' + '; '.join(bad[:4])}
 
 
@@ -501,3 +521,22 @@ from verif.native.purity import make_bounded as _make_purity  # noqa: E402
 from verif.props.purity_reg import REG as _PURITY_REG  # noqa: E402
 PURITY = _PURITY_REG['C03']
 bounded_purity = _make_purity('C03', PURITY)
+
+
+def unit_dep_from_trajectory(tier):
+    """The objects this property is stated about are built by Transitions.from_trajectory: its contract (full-radius states -> .states, inner-fraction
+    states -> .inner_states, events from exactly that pair, trajectory / sites kept) is re-discharged here (C02 owns it)."""
+    from verif.props import c02
+    from verif.props.common import merge_units
+    return merge_units('C03.dep_from_trajectory', [c02.unit_from_trajectory(tier)])
+
+
+# plumbing around the anchored functions: forwarding contracts of the public wrappers, no state shared between calls or objects
+from verif.props import plumbing as _plumbing  # noqa: E402
+
+
+def unit_plumbing(tier):
+    return _plumbing.unit_plumbing(PROPERTY)
+
+
+bounded_plumbing = _plumbing.make_bounded(PROPERTY)
